@@ -2,7 +2,7 @@
 C13 worker: run a list of gradings, one after the other, in THIS interpreter and print one canonical result
 per grading (JSON on stdout).  Started by harness/c13.py as a subprocess:
 
-    python procstate_worker.py <repo>      (the gradings arrive as JSON on stdin)
+    python procstate_worker.py <repo> <result file>      (the gradings arrive as JSON on stdin)
 
 A "fresh interpreter" result is this worker given a single grading.
 
@@ -58,7 +58,7 @@ def grade(g):
     exc = None
     try:
         b.run_ics_bundle(resolver="resolve", skip_tifa=bool(g.get("skip_tifa")), skip_run=bool(g.get("skip_run")))
-    except Exception as e:      # noqa: BLE001  (the environment itself failed: part of the result)
+    except (Exception, SystemExit) as e:      # noqa: BLE001  (the environment failed / the script called sys.exit: part of the result)
         exc = e
     return canon_result(b, exc)
 
@@ -73,13 +73,13 @@ def main():
         raise RuntimeError("pedal imported from %s, expected %s" % (got, repo))
     gradings = json.load(sys.stdin)
     outs = []
-    real_stdout = sys.stdout
     for g in gradings:
         # what the environment prints outside the bundle's own capture is not part of the result
         with contextlib.redirect_stdout(io.StringIO()), contextlib.redirect_stderr(io.StringIO()):
             outs.append(grade(g))
-    json.dump(outs, real_stdout)
-    real_stdout.flush()
+    # the results travel in a file of their own: gradings may write to the real stdout
+    with open(sys.argv[2], "w", encoding="utf-8") as fh:
+        json.dump(outs, fh)
     os._exit(0)     # never wait for threads a submission may have left behind
 
 
